@@ -280,16 +280,23 @@ impl Scheduler {
                 // for each pair (from -> to) inside the job graph, connect all the corresponding
                 // jobs of the execution graph
                 for &from_coord in from.replicas.values().flatten() {
-                    let to: Vec<_> = to.replicas.values().flatten().collect();
-                    for &to_coord in &to {
-                        if from.is_only_one_strategy || fragile {
-                            if to.len() == 1
-                                || (to_coord.host_id == from_coord.host_id
-                                    && to_coord.replica_id == from_coord.replica_id)
-                            {
-                                self.network.connect(from_coord, *to_coord, typ, fragile);
-                            }
-                        } else {
+                    let mut to: Vec<_> = to.replicas.values().flatten().collect();
+                    if from.is_only_one_strategy || fragile {
+                        // forward connection: exactly one receiver for each sender. Use the replica
+                        // with the same index; if there is none (the receiver has fewer replicas)
+                        // fall back to one chosen from the sender's global id, the same on every host.
+                        to.sort();
+                        let same_index = to.iter().find(|to_coord| {
+                            to_coord.host_id == from_coord.host_id
+                                && to_coord.replica_id == from_coord.replica_id
+                        });
+                        let to_coord = match same_index {
+                            Some(to_coord) => **to_coord,
+                            None => *to[from.global_ids[&from_coord] as usize % to.len()],
+                        };
+                        self.network.connect(from_coord, to_coord, typ, fragile);
+                    } else {
+                        for &to_coord in &to {
                             self.network.connect(from_coord, *to_coord, typ, fragile);
                         }
                     }
